@@ -135,7 +135,10 @@ func (sb *seqbag) sampleSeqBag(nb int) (*seqbag, error) {
 	permutation := rand.Perm(sb.NbSequences())
 	for i := 0; i < nb; i++ {
 		seq := sb.seqs[permutation[i]]
-		sample.AddSequenceChar(seq.name, seq.SequenceChar(), seq.Comment())
+		// The sampled sequences own their residues (they do not share them with sb)
+		newseq := make([]uint8, len(seq.SequenceChar()))
+		copy(newseq, seq.SequenceChar())
+		sample.AddSequenceChar(seq.name, newseq, seq.Comment())
 	}
 	return sample, nil
 }
@@ -804,7 +807,10 @@ func (sb *seqbag) rarefySeqBag(nb int, counts map[string]int) (sample *seqbag, e
 	sample = NewSeqBag(sb.alphabet)
 	sb.IterateAll(func(name string, sequence []uint8, comment string) bool {
 		if _, ok := selected[name]; ok {
-			sample.AddSequenceChar(name, sequence, comment)
+			// The rarefied sequences own their residues (they do not share them with sb)
+			newseq := make([]uint8, len(sequence))
+			copy(newseq, sequence)
+			sample.AddSequenceChar(name, newseq, comment)
 		}
 		return false
 	})
